@@ -74,11 +74,13 @@ pub fn run_e2(ctx: &CheckCtx, res: &mut CheckResult, items: &[(&str, &str, Mode)
         for v in &agg.violations {
             if let VKind::Known(name) = &v.kind {
                 // always reported (as a finding keyed by the recorded finding's name)
-                res.finding(
-                    format!("{}/known/{}", v.family, name),
-                    format!("{} — program #{} {}", v.what, v.program_idx, v.program),
-                    json!({"engine": "e2", "family": v.family, "set": set, "idx": v.program_idx, "program": v.program, "alts": v.alts}),
-                );
+                for one in name.split('+') {
+                    res.finding(
+                        format!("{}/known/{}", v.family, one),
+                        format!("{} — program #{} {}", v.what, v.program_idx, v.program),
+                        json!({"engine": "e2", "family": v.family, "set": set, "idx": v.program_idx, "program": v.program, "alts": v.alts}),
+                    );
+                }
                 continue;
             }
             if !wanted.contains(&v.kind) {
@@ -184,9 +186,113 @@ pub fn conformance(ctx: &CheckCtx, fams: &[&str], assumptions: &[&str]) -> Check
     res
 }
 
+const ALL_FAMILIES: [&str; 7] = ["lock", "atomic", "sync", "mpsc", "thread", "sem", "async"];
+
+/// C02: completeness — every outcome of the strict sequentially consistent model is produced by
+/// some schedule. Full trees only.
+pub fn c02(ctx: &CheckCtx) -> CheckResult {
+    let mut res = CheckResult::new("model_checking");
+    let set = if ctx.tier.is_thorough() { "thorough" } else { "quick" };
+    let mode = Mode {
+        sound: false,
+        complete: true,
+        max_programs: if ctx.tier.is_thorough() { usize::MAX } else { 700 },
+        ..Mode::default()
+    };
+    let items: Vec<(&str, &str, Mode)> = ALL_FAMILIES.iter().map(|f| (*f, set, mode.clone())).collect();
+    run_e2(ctx, &mut res, &items, &[VKind::Missing, VKind::Abort], if ctx.tier.is_thorough() { 1500.0 } else { 50.0 });
+    res.cov("rule", format!("{}; C02 oracle: outcome set of the strict model (BFS over all interleavings of visible operations) must be contained in the set of outcomes over all schedules; evaluated only on fully explored trees; quick tier = the first 700 programs (simplest first) of every family", e2_rule()));
+    res.assumptions.push("the reference model interleaves at operation granularity and knows nothing about where Shuttle places scheduling points".into());
+    res.assumptions.push("known findings F4/F5 (operations without a scheduling point) are recognised by re-running the inclusion against a model that fuses exactly those operations with their predecessor".into());
+    res
+}
+
+/// C03: endings — deadlock reported iff the model is stuck with an unfinished attached task, with
+/// exactly the unfinished tasks; otherwise a normal ending.
+pub fn c03(ctx: &CheckCtx) -> CheckResult {
+    let mut res = CheckResult::new("model_checking");
+    let set = if ctx.tier.is_thorough() { "thorough" } else { "quick" };
+    let mode = Mode {
+        complete: false,
+        max_programs: if ctx.tier.is_thorough() { usize::MAX } else { 700 },
+        ..Mode::default()
+    };
+    let items: Vec<(&str, &str, Mode)> = ALL_FAMILIES.iter().map(|f| (*f, set, mode.clone())).collect();
+    run_e2(ctx, &mut res, &items, &[VKind::Ending, VKind::Abort], if ctx.tier.is_thorough() { 1500.0 } else { 50.0 });
+    // anti-vacuity: how many executions ended in a deadlock report
+    res.cov("rule", format!("{}; C03 oracle restricted to the ending of every execution: the deadlock report (with exactly these task ids, detached ones included) must be an ending of some model state consistent with the whole log in which no task can progress (spurious wake-ups not counted) and an attached task is unfinished; a normal ending requires every attached task finished; horizon 20000 steps (a hang would surface as a step-bound failure)", e2_rule()));
+    res.assumptions.push("endings are judged only for executions whose steps the model accepts up to the end (a primitive-level mismatch is reported by that primitive's property)".into());
+    res
+}
+
+/// C08: the Scheduler contract at every decision of every execution, incl. scheduler-requested stops.
+pub fn c08(ctx: &CheckCtx) -> CheckResult {
+    let mut res = CheckResult::new("exploration");
+    let set = if ctx.tier.is_thorough() { "thorough" } else { "quick" };
+    let mode = Mode {
+        complete: false,
+        max_programs: if ctx.tier.is_thorough() { usize::MAX } else { 500 },
+        ..Mode::default()
+    };
+    let stop_mode = Mode {
+        complete: false,
+        stop_children: true,
+        max_programs: if ctx.tier.is_thorough() { 1500 } else { 150 },
+        ..Mode::default()
+    };
+    let mut items: Vec<(&str, &str, Mode)> = ALL_FAMILIES.iter().map(|f| (*f, set, mode.clone())).collect();
+    for f in ALL_FAMILIES {
+        items.push((f, set, stop_mode.clone()));
+    }
+    run_e2(
+        ctx,
+        &mut res,
+        &items,
+        &[VKind::Contract, VKind::Enabled, VKind::Abort, VKind::Ending],
+        if ctx.tier.is_thorough() { 1500.0 } else { 50.0 },
+    );
+    wrapper_transparency(ctx, &mut res);
+    res.cov("rule", format!("{}; C08 oracle at EVERY decision: runnable list non-empty, strictly ascending ids, only runnable or spuriously-wakeable tasks, contains every task the (strict) model can run, current_task = the task chosen at the previous decision (None at the first), is_yielding exactly after an explicit yield request, only the chosen task's code runs between decisions (log entries stamped with the decision counter); second pass: the explorer additionally answers None at every decision of every execution — the run must continue without failure; non-trivial = programs with >= 2 outcomes", e2_rule()));
+    res.assumptions.push("'every task able to run' is decided against the reference models (strict variants)".into());
+    res
+}
+
+/// Transparent wrappers: the explorer sees the same tree with and without the wrapper around it.
+fn wrapper_transparency(_ctx: &CheckCtx, res: &mut CheckResult) {
+    let exe = std::env::current_exe().expect("current_exe");
+    let out = std::process::Command::new(&exe)
+        .arg("wrappers")
+        .stdout(std::process::Stdio::piped())
+        .stderr(std::process::Stdio::null())
+        .output();
+    match out {
+        Ok(o) if o.status.success() => {
+            let txt = String::from_utf8_lossy(&o.stdout);
+            match txt.lines().last().and_then(|l| serde_json::from_str::<serde_json::Value>(l).ok()) {
+                Some(v) => {
+                    res.cov("wrapper_transparency", v.clone());
+                    for m in v["mismatches"].as_array().cloned().unwrap_or_default() {
+                        res.finding(
+                            format!("wrapper/{}", m["wrapper"].as_str().unwrap_or("?")),
+                            format!("scheduler wrapper is not transparent: {}", m),
+                            json!({"engine": "wrappers", "case": m}),
+                        );
+                    }
+                }
+                None => res.machinery_errors.push("wrappers child produced no report".into()),
+            }
+        }
+        Ok(o) => res.machinery_errors.push(format!("wrappers child failed: {:?}", o.status)),
+        Err(e) => res.machinery_errors.push(format!("cannot spawn wrappers child: {}", e)),
+    }
+}
+
 pub fn run_check(id: &str, tier: Tier) -> ! {
     let ctx = CheckCtx::new(id, tier);
     let res = match id {
+        "C02" => c02(&ctx),
+        "C03" => c03(&ctx),
+        "C08" => c08(&ctx),
         "C04" => c04(&ctx),
         "C05" => c05(&ctx),
         "C07" => conformance(&ctx, &["thread"], &["thread-local life cycle is judged by a monitor over logged init/drop events (expected sequence computed from the program: lazy init on first use, destruction in initialisation order, a destructor touching a destroyed key sees AccessError, a key first touched during destruction is initialised then and destroyed later)"]),
